@@ -263,6 +263,101 @@ pub fn gen(tier: Tier, r: &mut Rng, emit: &mut dyn FnMut(String)) {
             emit(format!("C13 lc {} {off}", hex_bytes(&v)));
         }
     }
+    // ---- very many line breaks before the error / the offset (line counters that batch or narrow
+    // the per-word count): 256*k +- 1 newlines in blank / 1- / 2- / 7- / 8- / 9-byte lines (newline in
+    // one fixed lane, or walking through every lane), lead-in of 0..7 bytes, prefixes crossing 2040-byte
+    // and 64 KiB boundaries, and long prefixes without any newline (column > 65535)
+    let bads: &[&[u8]] = &[&[0xED, 0xA0, 0x80], &[0xFF], &[0xC3, 0x28], &[0xE2, 0x82], &[0x80]];
+    let mut many = |r: &mut Rng, prefix: Vec<u8>, emit: &mut dyn FnMut(String)| {
+        let mut v = prefix;
+        let plen = v.len();
+        v.extend_from_slice(b"abc");
+        v.extend_from_slice(*r.pick(bads));
+        if r.chance(1, 2) {
+            v.extend_from_slice(b"\nzz");
+        }
+        let hx = hex_bytes(&v);
+        emit(format!("C13 val {hx}"));
+        emit(format!("C13 valx {hx}"));
+        emit(format!("C13 lc {hx} {}", plen + 3));
+        emit(format!("C13 lc {hx} {plen}"));
+    };
+    let line_of = |r: &mut Rng, shape: u64| -> Vec<u8> {
+        let n = match shape {
+            0 => 0,
+            1 => 1,
+            2 => 2,
+            3 => 6,
+            4 => 7,
+            5 => 8,
+            6 => r.usize_below(3),
+            _ => r.usize_below(8),
+        };
+        let mut l: Vec<u8> = (0..n).map(|_| b'0' + (r.below(10) as u8)).collect();
+        l.push(b'\n');
+        l
+    };
+    let ks: &[usize] = if quick { &[1, 2, 4] } else { &[1, 2, 3, 4, 5, 8] };
+    let reps_many = if quick { 1 } else { 12 };
+    for _ in 0..reps_many {
+        for &k in ks {
+            for delta in [-1i64, 0, 1] {
+                let n = (256 * k as i64 + delta) as usize;
+                for shape in 0..8u64 {
+                    if quick && shape == 5 && k > 1 {
+                        continue;
+                    }
+                    let lead = if shape % 2 == 0 { 0 } else { r.usize_below(8) };
+                    let mut p: Vec<u8> = vec![b'x'; lead];
+                    for _ in 0..n {
+                        p.extend(line_of(r, shape));
+                    }
+                    many(r, p, emit);
+                }
+            }
+        }
+    }
+    // batches: >= 256 newlines that start right before / after a 2040-byte (255-word) batch edge
+    for edge in [2040usize, 4080, 65536] {
+        for d in [-9i64, -1, 0, 1, 8] {
+            if quick && edge == 65536 && d != 0 {
+                continue;
+            }
+            let start = (edge as i64 + d) as usize;
+            let mut p: Vec<u8> = (0..start).map(|i| if i % 97 == 96 { b'\n' } else { b'a' }).collect();
+            let shape = r.below(5);
+            for _ in 0..(256 + r.usize_below(3)) {
+                p.extend(line_of(r, shape));
+            }
+            many(r, p, emit);
+        }
+    }
+    // long prefixes: many 7-byte lines across 64 KiB, sparse newlines, no newline at all
+    let longs: &[usize] = if quick { &[66_000] } else { &[300, 2_039, 2_041, 20_000, 65_535, 65_537, 70_000] };
+    for &len in longs {
+        let mut p = Vec::with_capacity(len);
+        while p.len() + 7 <= len {
+            p.extend_from_slice(b"123456\n");
+        }
+        many(r, p, emit);
+        many(r, vec![b'a'; len], emit);
+        let p: Vec<u8> = (0..len).map(|i| if i % 1021 == 0 { b'\n' } else { b'b' }).collect();
+        many(r, p, emit);
+    }
+    if !quick {
+        for _ in 0..300 {
+            // random short-line documents around the wrap points
+            let n = *r.pick(&[255usize, 256, 257, 511, 512, 513, 767, 768, 1023, 1024, 1025, 2048]) + r.usize_below(2);
+            let mean = r.range(1, 9);
+            let mut p: Vec<u8> = vec![b'y'; r.usize_below(16)];
+            for _ in 0..n {
+                let l = r.usize_below(mean as usize + 1);
+                p.extend((0..l).map(|_| b'a' + (r.below(26) as u8)));
+                p.push(b'\n');
+            }
+            many(r, p, emit);
+        }
+    }
     // ---- skip_ascii: one high byte at each position, every start
     for len in [0usize, 1, 7, 8, 9, 15, 16, 17, 23, 24, 31, 33] {
         for hi in 0..=len {
